@@ -70,6 +70,22 @@ CHECKS = {
              "Trusted: TLC, the harness' term -> Ty construction.",
         technique="TLA+ law checking (TLC) over the exhaustively recorded relation table",
         ref="DESIGN.md section 4 C13"),
+    "C14": dict(
+        engine="Mutability",
+        category="model_checking",
+        text="Mutability.tla's state graph enumerates every well-typed place chain (12 roots: := / "
+             ":: locals, parameter, global, ^mut / ^ pointers held by :=, ::, annotated locals, "
+             "parameters and call results; steps: field, index, deref, auto-deref field / index, "
+             "paren, #unwrap) and prescribes its mutability (last pointer crossed is ^mut, or no "
+             "pointer crossed and a := root); TLC checks the incremental rule against the "
+             "definitional one in every state. Each chain x {=, +=, ^mut} is one statement checked "
+             "by the real front end; accepted iff mutable.",
+        note="quick: <= 3 steps (2219 statements), thorough: <= 4 steps. Front end only "
+             "(visibility of accepted writes through aliases is covered by the executed-program "
+             "checks). Trusted: TLC, the renderer in tools/props/c14.py, matching diagnostics to "
+             "statements by line.",
+        technique="TLA+ rule model (TLC enumeration) + spec-to-implementation replay",
+        ref="DESIGN.md section 4 C14"),
     "C17": dict(
         engine="Ty/Layout",
         category="model_checking",
